@@ -121,7 +121,11 @@ func columnsLayout(context *layoutContext, box_ bo.BlockBoxITF, bottomSpace pr.F
 		columnsAndBlocks = append(columnsAndBlocks, ibl{len(box.Children) - len(columnChildren), boxOrList{list: columnChildren}})
 	}
 
+	// the resume point of the first item : inside a column box (whose children are
+	// ours), or inside a spanning block (its own children)
+	var spanSkipStack tree.ResumeStack
 	if skipStack != nil {
+		spanSkipStack = skipStack[skip]
 		skipStack = tree.ResumeStack{0: skipStack[skip]}
 	}
 
@@ -149,6 +153,7 @@ func columnsLayout(context *layoutContext, box_ bo.BlockBoxITF, bottomSpace pr.F
 		currentPositionY    = box.ContentBoxY()
 		newChildren         []Box
 		columnSkipStack     tree.ResumeStack
+		spanResumeAt        tree.ResumeStack // where a spanning block was broken
 		lastLoop            = false
 		breakPage           = false
 		lastFootnotesHeight pr.Float
@@ -170,7 +175,11 @@ func columnsLayout(context *layoutContext, box_ bo.BlockBoxITF, bottomSpace pr.F
 			resolvePercentagesBox(block, containingBlock, 0)
 			block.Box().PositionX = box.ContentBoxX()
 			block.Box().PositionY = currentPositionY
-			newChild, tmp, _ := blockLevelLayout(context, block, originalBottomSpace, skipStack,
+			var blockSkipStack tree.ResumeStack
+			if skipStack != nil { // the block was broken on the previous page
+				blockSkipStack = spanSkipStack
+			}
+			newChild, tmp, _ := blockLevelLayout(context, block, originalBottomSpace, blockSkipStack,
 				containingBlock, pageIsEmpty, absoluteBoxes, fixedBoxes, &adjoiningMargins, false, -1)
 			nextPage, adjoiningMargins = tmp.nextPage, tmp.adjoiningMargins
 			skipStack = nil
@@ -183,9 +192,11 @@ func columnsLayout(context *layoutContext, box_ bo.BlockBoxITF, bottomSpace pr.F
 			currentPositionY = newChild.Box().BorderHeight() + newChild.Box().BorderBoxY()
 			adjoiningMargins = append(adjoiningMargins, newChild.Box().MarginBottom.V())
 			if tmp.resumeAt != nil {
+				// the block is resumed on the next page, where it was broken
 				lastLoop = true
 				breakPage = true
-				columnSkipStack = tmp.resumeAt
+				columnSkipStack = nil
+				spanResumeAt = tmp.resumeAt
 				break
 			}
 			pageIsEmpty = false
@@ -474,7 +485,9 @@ func columnsLayout(context *layoutContext, box_ bo.BlockBoxITF, bottomSpace pr.F
 	}
 
 	// Calculate skip stack
-	if columnSkipStack != nil {
+	if spanResumeAt != nil {
+		skipStack = tree.ResumeStack{index: spanResumeAt}
+	} else if columnSkipStack != nil {
 		skip, _ = columnSkipStack.Unpack()
 		skipStack = tree.ResumeStack{index + skip: columnSkipStack[skip]}
 	} else if breakPage {
